@@ -58,6 +58,37 @@ func (c *Ctx) unmarshalTargetTypeD(f *ssa.Function, depth int) types.Type {
 	return out
 }
 
+// caseTableTree: the case table over the scrutinee in f, or (when f has none) in an unexported helper of the same
+// package that f calls; returns the table, the function holding the switch, the environment rendering that function's
+// values in f's frame, and f's call of the helper (nil when the switch is in f).
+func (c *Ctx) caseTableTree(f *ssa.Function, scrut func(path string) bool) (map[string]*ssa.BasicBlock, *ssa.Function, Env, *ssa.Call) {
+	if tbl := c.caseTable(f, nil, scrut); len(tbl) > 0 {
+		return tbl, f, nil, nil
+	}
+	var rt map[string]*ssa.BasicBlock
+	var rf *ssa.Function
+	var renv Env
+	var rc *ssa.Call
+	forEachInstr(f, func(in ssa.Instruction) {
+		cl, ok := in.(*ssa.Call)
+		if !ok || rt != nil {
+			return
+		}
+		g := cl.Call.StaticCallee()
+		if g == nil || !inModule(g) || g.Blocks == nil || pkgPathOf(g) != pkgPathOf(f) || (g.Object() != nil && g.Object().Exported()) {
+			return
+		}
+		env := c.calleeEnv(&cl.Call, g, nil)
+		if tbl := c.caseTable(g, env, scrut); len(tbl) > 0 {
+			rt, rf, renv, rc = tbl, g, env, cl
+		}
+	})
+	if rt == nil {
+		return map[string]*ssa.BasicBlock{}, f, nil, nil
+	}
+	return rt, rf, renv, rc
+}
+
 func derefT(t types.Type) types.Type {
 	if p, ok := t.Underlying().(*types.Pointer); ok {
 		return p.Elem()
@@ -301,7 +332,8 @@ func runC08(c *Ctx) {
 		c.Unresolved("C08.P2", "model.GetAnchoredOperation")
 	} else {
 		c.Analysed(gao)
-		tbl := c.caseTable(gao, nil, func(p string) bool { return p == "$0.Type" })
+		// the switch over the operation type: in GetAnchoredOperation itself or in an unexported helper it calls
+		tbl, swF, swEnv, swCall := c.caseTableTree(gao, func(p string) bool { return p == "$0.Type" })
 		wantF := map[string]map[string]string{
 			"create":     {"Operation": "$0.Type", "SuffixData": "$0.SuffixData", "Delta": "$0.Delta"},
 			"update":     {"Operation": "$0.Type", "DidSuffix": "$0.UniqueSuffix", "Delta": "$0.Delta", "SignedData": "$0.SignedData", "RevealValue": "$0.RevealValue"},
@@ -326,7 +358,7 @@ func runC08(c *Ctx) {
 				if n, isN := et.(*types.Named); !isN || n.Obj().Name() != wantT[typ] {
 					continue
 				}
-				ft := c.fieldTable(a, nil)
+				ft := c.fieldTable(a, swEnv)
 				ok = len(ft) == len(wantF[typ])
 				for k, v := range wantF[typ] {
 					if len(ft[k]) != 1 || ft[k][0] != v {
@@ -349,18 +381,23 @@ func runC08(c *Ctx) {
 			_ = r
 		}
 		cut := map[edge]bool{}
-		forEachInstr(gao, func(in ssa.Instruction) {
-			if bo, ok := in.(*ssa.BinOp); ok && bo.Op == token.EQL && c.Path(bo.X, nil) == "$0.Type" {
+		forEachInstr(swF, func(in ssa.Instruction) {
+			if bo, ok := in.(*ssa.BinOp); ok && bo.Op == token.EQL && c.Path(bo.X, swEnv) == "$0.Type" {
 				for _, e := range boolEdges(bo, true) {
 					cut[e] = true
 				}
 			}
 		})
-		seen := reach(gao.Blocks[0], cut)
+		seen := reach(swF.Blocks[0], cut)
 		for b := range seen {
 			if r, isR := b.Instrs[len(b.Instrs)-1].(*ssa.Return); isR && maySucceed(r) {
 				okDef = false
 			}
+		}
+		if swCall != nil {
+			// the helper's refusal is GetAnchoredOperation's refusal
+			req, _, _ := c.Guard(gao, nil, &GCheck{Name: "request model built", NoDescend: true, MatchCall: func(c *Ctx, call *ssa.Call, env Env) bool { return call == swCall }}, nil)
+			okDef = okDef && req
 		}
 		c.Check("C08.P2", "anchored:unknown-type-error", okDef, gao.Pos(), "an unknown operation type yields an error")
 	}
